@@ -100,6 +100,22 @@ def union_str_before_number(doc: dict) -> bool:
     return doc_has(doc, p)
 
 
+def missing_required_nullable(doc: dict, s: Any, v: Any, depth: int = 0) -> bool:
+    """the instance lacks a required member whose schema admits null (C04's known finding D7)"""
+    if depth > 8 or not isinstance(s, dict):
+        return False
+    s = semgen.resolve(doc, s)
+    if isinstance(v, dict) and isinstance(s.get("properties"), dict):
+        for nm in s.get("required", []):
+            ps = s["properties"].get(nm)
+            if nm not in v and isinstance(ps, dict) and semgen.admits_null(doc, ps):
+                return True
+        return any(missing_required_nullable(doc, ps, v[nm], depth + 1) for nm, ps in s["properties"].items() if nm in v)
+    if isinstance(v, list) and isinstance(s.get("items"), dict):
+        return any(missing_required_nullable(doc, s["items"], x, depth + 1) for x in v)
+    return False
+
+
 def add_undeclared(doc: dict, inst: Any) -> tuple[Any, str] | None:
     """instance with one undeclared member added to the root object, when the schema allows it
     (returns the instance and how additionalProperties was written)"""
@@ -131,7 +147,9 @@ def campaign_model(ck: Check, n: int, parts: tuple = ("valid", "tr", "acc"), for
     # the families of vlib/semfam.py, with the instances built for them (nulls at every nullable place, the members a
     # nested combination contributes)
     fam_insts: dict[str, list] = {}
-    frng = ck.rng.fork(fork + "-families")
+    from ..common import Rng
+
+    frng = Rng(ck.seed, f"{ck.prop}/{fork}-families")  # (not ck.rng.fork: the streams of the later campaigns stay as they were)
     off = frng.below(96)
     for i in range(max(6, n // 4)):
         for gen, tag in ((lambda r, k: semfam.nullable_doc(r, k, kinds=semfam.MODELLED_NULLABLE_KINDS), "nullable"), (semfam.nested_allof_doc, "nested")):
@@ -274,6 +292,12 @@ def campaign_model(ck: Check, n: int, parts: tuple = ("valid", "tr", "acc"), for
                 if st == "v1" and semgen.allof_required_const(doc):
                     cc.hit("known:v1_const_member_required_by_allOf")  # D41: the same `Field(..., const=True)`
                     continue
+                if tri == "reject" and ok and missing_required_nullable(doc, semlean.body_of(doc), x):
+                    # D7 (C04) where `acceptsTy` cannot see it: the member's IR type is a plain reference / a union with
+                    # a root-model alternative; the WRITER makes it `Optional[...]` (= None in v2; an Optional without
+                    # default is optional in pydantic v1) because the definition / the alternative is nullable
+                    cc.hit("known:required_member_admitting_null_through_ref_or_root_model")
+                    continue
                 ck.disagree(cc, {"doc": doc, "instance": x, "style": st, "routing": r}, tri, "accept" if ok else "reject")
             elif len(cc.samples) < 2 and not ok:
                 cc.samples.append({"doc": doc, "instance": x, "style": st, "routing": r, "verdict": tri})
@@ -380,6 +404,14 @@ def null_place_cause(doc: dict, inst: Any) -> str:
     return "none"
 
 
+def collapsed_item_count(doc: dict, err: str) -> bool:
+    """the document has an array-typed definition and the complaint is about an item count (C14's D39b: under
+    --collapse-root-models the member `List[List[int]] = Field(..., min_items=…)` applies the outer count to the
+    inlined inner list in pydantic v1)"""
+    arr_def = any(isinstance(v, dict) and v.get("type") == "array" for v in (doc.get("definitions") or {}).values())
+    return arr_def and any(t in err for t in ("min_items", "max_items", "too_short", "too_long", "at least", "at most"))
+
+
 def _drop_absent_nones(dumped: Any, inst: Any, declared_only: bool = True) -> Any:
     """dataclasses have no notion of 'unset': members the instance does not have (they dump as
     their default: None, or the constant of a `const` member) are not counted as a difference"""
@@ -443,6 +475,8 @@ def oracle_doc(ck: Check, camp, doc: dict, target: tuple, insts: list | None = N
             if cause == "none" and style == "v2" and kind == semrun.STYLE_MODEL["v2"] and shadowed_class_names(b.code):
                 cause = "member_name_shadows_class_name"
             if not ok:
+                if cause == "none" and optname == "collapse_root_models" and collapsed_item_count(doc, str(obj)):
+                    cause = "collapse_root_models_array_def_item_count"
                 ck.fail({**base, "oracle": "valid_rejected", "mechanism": "validation_error", "cause": cause}, {**inp, "instance": inst}, f"valid instance rejected: {str(obj)[:300]}")
                 continue
             try:
